@@ -1,4 +1,6 @@
 import Netconan.Proofs.SrcTieSecrets
+import Netconan.Props.C07
+import Netconan.Props.C08
 /-!
 # C07–C09 on the *translated source* of `_check_sensitive_item_format`
 
@@ -36,5 +38,47 @@ theorem source_text_iff_no_test_matches (fs : List Regex.Re) (val : List Char) :
 theorem source_numeric_wins (fs : List Regex.Re) (val : List Char) (h : Secrets.reMatch (fs.getD 5 .fail) val = true) :
     Src.check_sensitive_item_format fs val = .numeric := by
   rw [source_classify]; unfold Secrets.classify; simp only [h, ↓reduceIte]
+
+/-! ## `_anonymize_value` as written in the source -/
+open Secrets
+
+variable (x : Ext) (fs : List Regex.Re) (salt : List Char)
+
+/-- **`_anonymize_value` of the source is the model's `anonymizeValue`**: same replacement, same lookup table afterwards, for every
+raw value, salt and table – the decision structure (reserved value, empty value, `$9$` decryption inside `try`, hit by value, hit by
+plaintext, numbering by the table size, the six re-encodings, which key is stored) is read from the source text on every run. -/
+theorem source_anonymize_value (raw : List Char) (lk : Lookup) :
+    Src.anonymize_value x fs raw salt lk = anonymizeValue x fs salt raw lk := SrcTie.anonymize_value_tie x fs salt raw lk
+
+/-- **C08 on the source**: a value that is in the table (and is neither reserved nor empty after stripping) is answered from the
+table and the table is unchanged – equal secrets receive equal replacements, whatever was seen in between. -/
+theorem source_hit_returns_stored (raw a : List Char) (lk : Lookup)
+    (hres : x.isReserved (extractEnclosing (raw.length + 1) raw [] []).2.1 = false)
+    (hne : (extractEnclosing (raw.length + 1) raw [] []).2.1.isEmpty = false)
+    (h : lk.get (extractEnclosing (raw.length + 1) raw [] []).2.1 = some a) :
+    Src.anonymize_value x fs raw salt lk =
+      .ok ((extractEnclosing (raw.length + 1) raw [] []).1 ++ a ++ (extractEnclosing (raw.length + 1) raw [] []).2.2, lk) := by
+  rw [source_anonymize_value]
+  unfold anonymizeValue
+  generalize extractEnclosing (raw.length + 1) raw [] [] = e at *
+  obtain ⟨hd, val, tl⟩ := e
+  simp only [] at hres hne h ⊢
+  simp [hres, hne, C08.hit_returns_stored x fs salt val a lk h]
+
+/-- **C07 on the source**: for two new secrets (neither in the table, neither a `$9$` string, neither reserved nor empty, no enclosing
+text) of the same class, md5 salt length and met at the same table size, the source writes the same replacement. -/
+theorem source_replacement_independent_of_content (v1 v2 : List Char) (lk1 lk2 : Lookup)
+    (e1 : extractEnclosing (v1.length + 1) v1 [] [] = ([], v1, [])) (e2 : extractEnclosing (v2.length + 1) v2 [] [] = ([], v2, []))
+    (r1 : x.isReserved v1 = false) (r2 : x.isReserved v2 = false) (n1 : v1.isEmpty = false) (n2 : v2.isEmpty = false)
+    (h1 : lk1.get v1 = none) (h2 : lk2.get v2 = none)
+    (hp1 : decryptedOf v1 = none) (hp2 : decryptedOf v2 = none)
+    (hcls : classify fs v1 = classify fs v2) (hsalt : md5SaltLen v1 = md5SaltLen v2)
+    (hsize : lk1.length = lk2.length) :
+    ∃ a, Src.anonymize_value x fs v1 salt lk1 = .ok (a, lk1 ++ [(v1, a)]) ∧
+         Src.anonymize_value x fs v2 salt lk2 = .ok (a, lk2 ++ [(v2, a)]) := by
+  obtain ⟨a, ha1, ha2⟩ := C07.replacement_independent_of_content x fs salt v1 v2 lk1 lk2 h1 h2 hp1 hp2 hcls hsalt hsize
+  refine ⟨a, ?_, ?_⟩
+  · rw [source_anonymize_value]; simp [anonymizeValue, e1, r1, n1, ha1]
+  · rw [source_anonymize_value]; simp [anonymizeValue, e2, r2, n2, ha2]
 
 end Netconan.Props.SrcSecrets
